@@ -142,6 +142,7 @@ type PanicCli struct {
 func init() {
 	Register(&Scenario{
 		Name:     "panic",
+		DescToo:  true,
 		Property: "C13",
 		Cfg:      vsched.Config{Horizon: 10 * time.Second},
 		Params: func(tier string) []Param {
